@@ -15,7 +15,7 @@ EXPLANATION = (
     "chains all three; (T2) the type renderer and the item emitters format the same `name` field, so a patched name is the only "
     "name that appears; (D1) both places that render a map type read settings.map_type and share the one exception "
     "(String -> JsonValue); (W3) in convert_schema the conversion-cache lookup dominates the structural dispatcher and ignores "
-    "annotations on both sides; (T3) enabling the builder only adds items: no template has an else-branch on the setting; "
+    "annotations on both sides — and nothing else: a member-wise comparison names every member of SchemaObject except metadata; (T3) enabling the builder only adds items: no template has an else-branch on the setting; "
     "(W4) every settings setter (`with_*`) and the conversion cache's insert store what they are given on every path; the only "
     "condition allowed is an exact-duplicate test (`!list.contains(&item)` on the list itself), never a test on part of the value; (W5) once a type space exists its settings are only read: every write to a field of the "
     "settings is inside one of the settings' own setters; (W6) no two setters insert into the same keyed field of the settings."
